@@ -190,7 +190,8 @@ def views(SA, footprint, analytic, ctx="generic", **kw):
     # a path on which the code established that an input quantity vanishes (an all-zero source, a zero mean flux) covers a
     # special case only: the rules are evaluated on the general paths, and R-PATHS compares each special-case path with its
     # general sibling under that fact (props_solver.path_uniformity)
-    general = [r for r in rets if not zero_atoms(r)]
+    tower = {atom_of(S.xm), atom_of(S.ym)}  # (the tower at the origin is a case the rules ask for themselves: shifted=False)
+    general = [r for r in rets if not (zero_atoms(r) - tower)]
     if general:
         rets = general
     if not rets:
@@ -420,7 +421,9 @@ def zero_tower(S):
 
 def event_obs(v, rule, kinds, what, site=None):
     ev = [e for e in v.r.events if e[0] in kinds]
-    return req_ob(rule, site or v.site("whole function"), what, not ev, detail="; ".join("%s %s" % (e[1], e[2]) for e in ev[:4]) or None)
+    # a construct the interpreter does not follow is a gap of the analysis, not a defect of the code
+    verdict = True if not ev else None if all(e[0] == "unsupported" for e in ev) else False
+    return req_ob(rule, site or v.site("whole function"), what, verdict, detail="; ".join("%s %s" % (e[1], e[2]) for e in ev[:4]) or None)
 
 
 # --------------------------------------------------------------------------
